@@ -204,7 +204,7 @@ def check_c15(tier, seed, log=print):
                     run.violation('tie', dict(config=name, request=rq, observed=v, model=mv, correspondence='Lexer::bump vs LogosModel.bumpFixed'),
                                   no_input=True, key='bumptie|%s' % rq)
     run.coverage.update(dict(obligations=au['obligations'], discharged=au['discharged'], theorems=au['names'], axioms=au['axioms'],
-                             checker_cmd=au['checker_cmd'], trusted_base=TRUSTED_BASE,
+                             checker_cmd=au['checker_cmd'], kernel_recheck=au.get('kernel_recheck'), trusted_base=TRUSTED_BASE,
                              evaluations=evals, distinct_nontrivial=len(nontriv), source_wrapper_probes_ok=src_ok,
                              rule='Lexer::bump(n) on str and [u8] lexers at three positions, n over 0..len+2, usize::MAX-k, 2^63, 2^64-2 and wrap-around values, in debug and release builds with and without forbid_unsafe, under catch_unwind; '
                                   'afterwards span() is inspected and slice()/remainder() only when the span is valid; oracle = the property itself (succeeds iff new end representable, in range and on a boundary; span valid in every case); non-trivial = n > len',
@@ -397,7 +397,7 @@ def check_c14(tier, seed, log=print):
             elif len(samples) < 4 and 'clone' in ops and 'morph' in ops:
                 samples.append(dict(request=rq, observed=v))
     run.coverage.update(dict(obligations=au['obligations'], discharged=au['discharged'], theorems=au['names'], axioms=au['axioms'],
-                             checker_cmd=au['checker_cmd'], trusted_base=TRUSTED_BASE,
+                             checker_cmd=au['checker_cmd'], kernel_recheck=au.get('kernel_recheck'), trusted_base=TRUSTED_BASE,
                              evaluations=evals, distinct_nontrivial=len(nontriv), op_mix=opcount, configs=list(bins),
                              rule='random histories, and exhaustively every three-call sequence over a 12-entry menu after 0 or 2 warm-up calls, of next / spanned-next / bump (in range, out of range, overflowing) / clone / morph on a pool of lexers of two token types over one source (str: TokA/TokB; [u8]: TokC/TokD), ordinary and partial, '
                                   'run on the real Lexer (debug/release x default/forbid_unsafe; after every call span, slice == source[span], remainder == source[end..], extras are checked) and on the Lean pool model over the captured graphs of the same two definitions; non-trivial = history contains clone and morph',
